@@ -257,7 +257,8 @@ fn drive(seed: u64, nworlds: u64, nframes: u64, out: &str) -> Value {
                 writeln!(f, "{}", op).unwrap();
                 ops += 1;
             }
-            let dt = [0, 1, 1, 2, 3, 3, 8, 1000][rng.below(8) as usize];
+            // (rarely one frame of 2^24 ticks = 2^21 s: an f32 clock would absorb the fine frames that follow)
+            let dt = if rng.below(40) == 0 { 16777216 } else { [0, 1, 1, 2, 3, 3, 8, 1000][rng.below(8) as usize] };
             // a panic inside the App is an observation (rejected by the trace spec), not a harness failure
             let rec = match std::panic::catch_unwind(std::panic::AssertUnwindSafe(|| w.frame(dt))) {
                 Ok(r) => r,
